@@ -205,6 +205,20 @@ def c08_3(ctx):
         ok = lits == [('isinstance', 'lobj', 'ConditionLine', False)]
         ctx.check(ok, 'guard:compilable-every-line', load.site(sts[0]), 'the flag is set for every line object except condition lines',
                   describe_facts(fcl))
+    # everything a parsed line contributes to the per-file state is under `lobj.compilable`
+    rl = resolver(ctx, load, inline=False)
+    loops = [l for l in walk_no_nested(load.node) if isinstance(l, ast.For)]
+    for var, what in (('current_scope', 'label region'), ('current_memzone', 'memory zone'), ('lobj.label_scope', 'line scope')):
+        for a in [n for n in walk_no_nested(load.node) if isinstance(n, ast.Assign) and unparse(n.targets[0]) == var
+                  and any(any(x is n for x in ast.walk(l)) for l in loops)]:
+            cl = facts_at(ctx, load, a, rl)
+            ok = any(c == frozenset({('truthy', 'lobj.compilable', True)}) or c == frozenset({('truthy', 'lobj._compilable', True)}) for c in cl)
+            ctx.check(ok, f'guard:{what}-change', load.site(a), f'a line changes the file\'s {what} only if it is in a selected branch',
+                      f'{unparse(a)} under {describe_facts(cl)}')
+    for c in [n for n, _ in calls_to(ctx, load, {'bespokeasm.assembler.label_scope.LabelScope.set_label_value'})]:
+        cl = facts_at(ctx, load, c, rl)
+        ok = any(cc == frozenset({('truthy', 'lobj.compilable', True)}) for cc in cl)
+        ctx.check(ok, 'guard:constant-registration', load.site(c), 'a constant is registered only if its line is in a selected branch', describe_facts(cl))
     ms = [n for n in walk_no_nested(load.node) if isinstance(n, ast.Assign) and unparse(n.targets[0]) == 'lobj.is_muted']
     ctx.check(len(ms) == 1 and unparse(ms[0].value) == 'condition_stack.is_muted', 'guard:muted=stack', load.site(ms[0]) if ms else load.site(),
               'a parsed line is muted iff the condition stack is muted when it is reached', '; '.join(unparse(s) for s in ms))
@@ -416,6 +430,21 @@ MUTANTS = [
         else:
             return not self._is_ifndef''', 'C08.7'),
     V('c08-latch-lazy', _CF, '        self._latched_value = self.evaluate(preprocessor)\n        return self._latched_value', '        return self.evaluate(preprocessor)', 'C08.2'),
+]
+MUTANTS += [
+    V('c08-scope-open-unselected', _AF, '''                            if lobj.compilable:
+                                if isinstance(lobj, LabelLine):
+                                    if not lobj.is_constant \\
+                                            and LabelScopeType.get_label_scope(lobj.get_label()) != LabelScopeType.LOCAL:
+                                        current_scope = LabelScope(LabelScopeType.LOCAL, self.label_scope, lobj.get_label())
+''', '''                            if isinstance(lobj, LabelLine):
+                                if not lobj.is_constant \\
+                                        and LabelScopeType.get_label_scope(lobj.get_label()) != LabelScopeType.LOCAL:
+                                    current_scope = LabelScope(LabelScopeType.LOCAL, self.label_scope, lobj.get_label())
+                            if lobj.compilable:
+                                if isinstance(lobj, LabelLine):
+                                    pass
+''', 'C08.3'),
 ]
 TWINS = [
     V('c08-t-if-not-form', _CF, '''        if self.parent.is_lineage_true(preprocessor):
